@@ -80,16 +80,61 @@ Definition creates (s : label) (k : nat) : bool :=
   | _ => false
   end.
 
-(* a message changes only by an operation of its holder; messages appear only by being built or handed to a handler *)
-Fixpoint isolated (sched : list label) (deltas : list (list (nat * content))) (seen : list nat) : bool :=
+(* the result of a mutator operation as far as the content alone determines it (a reslice that
+   reaches into the spare capacity exposes bytes the content does not show) *)
+Definition with_payload (c : content) (p : list N) : content :=
+  mkC (c_topic c) (c_id c) (c_qos c) (c_retain c) (c_dup c) p.
+Definition cop (o : op) (c : content) : option content :=
+  match o with
+  | OSetTopic t => Some (mkC t (c_id c) (c_qos c) (c_retain c) (c_dup c) (c_payload c))
+  | OSetId n => Some (mkC (c_topic c) n (c_qos c) (c_retain c) (c_dup c) (c_payload c))
+  | OSetQos n => Some (mkC (c_topic c) (c_id c) n (c_retain c) (c_dup c) (c_payload c))
+  | OSetRetain b => Some (mkC (c_topic c) (c_id c) (c_qos c) b (c_dup c) (c_payload c))
+  | OSetDup b => Some (mkC (c_topic c) (c_id c) (c_qos c) (c_retain c) b (c_payload c))
+  | OWrite i v => Some (if i <? length (c_payload c) then with_payload c (write_at i [v] (c_payload c)) else c)
+  | OAppend bs _ => Some (with_payload c (c_payload c ++ bs))
+  | OReslice lo hi =>
+      if (lo <=? hi) && (hi <=? length (c_payload c))
+      then Some (with_payload c (firstn (hi - lo) (skipn lo (c_payload c))))
+      else None
+  | ONewPayload bs _ => Some (with_payload c bs)
+  end.
+
+Fixpoint lookup (k : nat) (l : list (nat * content)) : option content :=
+  match l with
+  | [] => None
+  | (k', c) :: r => if Nat.eqb k k' then Some c else lookup k r
+  end.
+
+(* what a holder reads after its own operation is what that operation wrote *)
+Definition own_ok (s : label) (d cur : list (nat * content)) : bool :=
+  match s with
+  | SMut a o =>
+      match lookup a cur with
+      | Some c =>
+          match cop o c with
+          | Some c' => content_eqb c' (match lookup a d with Some n => n | None => c end)
+          | None => true
+          end
+      | None => true
+      end
+  | _ => true
+  end.
+
+(* a message changes only by an operation of its holder — whenever that is: during the handler's
+   call or any time after it returned, whatever was dispatched in between; messages appear only by
+   being built or handed to a handler. [cur]: the latest content read for every holder seen so far. *)
+Fixpoint isolated (sched : list label) (deltas : list (list (nat * content))) (cur : list (nat * content)) : bool :=
   match sched, deltas with
   | [], [] => true
   | s :: sched', d :: deltas' =>
       forallb (fun kc => let k := fst kc in
-                         if existsb (Nat.eqb k) seen
-                         then match actor s with Some a => Nat.eqb a k | None => false end
-                         else creates s k) d
-      && isolated sched' deltas' (map fst d ++ seen)
+                         match lookup k cur with
+                         | Some _ => match actor s with Some a => Nat.eqb a k | None => false end
+                         | None => creates s k
+                         end) d
+      && own_ok s d cur
+      && isolated sched' deltas' (d ++ cur)
   | _, _ => false
   end.
 
@@ -124,6 +169,7 @@ Definition RBegin (a mi : N) := SMuxBegin (nn a) (nn mi).
 Definition RNext (f extra : N) := SMuxNext (nn f) (nn extra).
 Definition RAsync (a hid extra : N) := SAsync (nn a) (nn hid) (nn extra).
 Definition RRun (k : N) := SRun (nn k).
+Definition RReturn (a : N) := SReturn (nn a).
 Definition RDisp (d a : N) (c : content) := EvDispatch (nn d) (nn a) c.
 Definition REntry (d hid k : N) (c : content) := EvEntry (nn d) (nn hid) (nn k) c.
 Definition RD (k : N) (c : content) : nat * content := (nn k, c).
